@@ -269,6 +269,26 @@ class TT:
         return r
 
 
+class SampledTT(TT):
+    """Values of references on K random assignments (bit i of a table = value under the i-th
+    assignment): the oracle for managers too wide for full truth tables."""
+
+    def __init__(self, b, names, k, rng):
+        self.b = b
+        self.names = list(names)
+        self.full = (1 << k) - 1
+        self.masks = {n: rng.getrandbits(k) for n in self.names}
+        self.memo = {}
+
+    def neg(self, t):
+        return self.full & ~t
+
+    def fresh(self):
+        """the same assignments, memo dropped (after the manager changed)"""
+        self.memo = {}
+        return self
+
+
 def tt_of(b, u, names=None):
     return TT(b, names).of(u)
 
